@@ -154,7 +154,9 @@ CLAIMED = {
         "interleavings (20-90 per set; thorough up to 1680) of 2-4-call scripts for the original handle and 1-2 clones on "
         "stored / deflated / ZipCrypto archives and on archives with damaged local headers, model = crate call by call, "
         "and each handle's projection = its script run alone; 8-16 OS threads each cloning through a shared reference and "
-        "reading all entries in random orders with yields = single-handle reference; Send + Sync of ZipArchive<R> for four "
+        "reading all entries in random orders with yields = single-handle reference; deterministic I/O-LEVEL interleavings "
+        "(clonegate): one handle is stopped in front of each of its read/seek calls while a second clone opens and reads the "
+        "same entry, on entries with and without local extra fields; Send + Sync of ZipArchive<R> for four "
         "reader types is a compile-time assertion in the harness.",
    note="Trusted: Coq kernel, extraction+driver, harness (unsafe lifetime extension to hold entries across calls, std::thread), genzip.py. OS schedules are sampled; the all-interleavings claim is the theorem's, at API-call granularity; that the Rust shares nothing else mutable is by reading the code (types.rs: one AtomicU64 in ZipFileData) and by the Sync assertion.",
    technique="Coq proof (non-interference of handles by induction over arbitrary schedules) + exhaustive interleaving correspondence + thread stress + compile-time Send/Sync assertion",
@@ -253,8 +255,8 @@ CLAIMED = {
         "content and optional mode, directories; components non-empty, not '.'/'..', no '/' or NUL; a file's path is "
         "neither an ancestor of nor equal to another entry's path), of any size and nesting, extraction into an empty target "
         "succeeds and the target then holds exactly: each file with its bytes and mode = recorded mode & 0o7777, each "
-        "directory entry and every ancestor as a directory, and nothing else; the streaming extractor's file phase builds "
-        "the same tree.  Correspondence: both extractors run into a sandbox next to a populated canary directory on archives "
+        "directory entry and every ancestor as a directory, and nothing else; the same for the streaming extractor with its "
+        "two phases (files from the local headers, then one chmod per central record).  Correspondence: both extractors run into a sandbox next to a populated canary directory on archives "
         "with '..' chains, absolute paths, NUL, backslashes, '.'/empty pieces, duplicates, file/dir conflicts, "
         "symlink-typed entries, deep nesting and arbitrary permission bits; the complete sandbox listing (paths, types, "
         "modes, contents) and the result are compared with the model, and judged by the oracle (canary untouched; for "
